@@ -3,6 +3,7 @@
 package main
 
 import (
+	"fmt"
 	"math/rand"
 	"servitor/ansi"
 )
@@ -41,6 +42,18 @@ func genC13(r *rand.Rand, n int, emit func(Op)) {
 	for i := 0; i < n; i++ {
 		s, canon := genText(r, 3+r.Intn(40))
 		w := genWidth(r)
+		if r.Intn(25) == 0 {
+			/* the same layout function twice in one process with arguments that run into each
+			   other when written side by side (12,"3 x") / (1,"23 x"): results may not be
+			   remembered under a key that confuses them */
+			d := 1 + r.Intn(9)
+			x := r.Intn(10)
+			plain := pick(r, []string{" replies so far and more words to wrap", " boosts", "abc def ghi jkl mno", " "})
+			op := pick(r, []string{"wrap", "dumbwrap", "pad"})
+			emit(Op{"op": op, "s": plain, "w": d*10 + x, "canon": true})
+			emit(Op{"op": op, "s": fmt.Sprint(x) + plain, "w": d, "canon": true})
+			continue
+		}
 		switch weighted(r, 2, 8, 3, 3, 2, 4, 2, 1) {
 		case 0:
 			emit(Op{"op": "expand", "s": s})
